@@ -26,7 +26,7 @@ RULE = (
     'restore (deepcopy | pickle | YAML) x loader.  Non-trivial = at least one crash was taken at a boundary other than '
     'construction; distinct = distinct event-log digest.'
 )
-BUDGET = {'quick': (25000, 55), 'thorough': (2_000_000, 600)}
+BUDGET = {'quick': (60000, 55), 'thorough': (2_000_000, 600)}
 COMPONENTS = {
     'real': common.COMPONENTS['real'] + ['plumpy.persistence', 'plumpy.workchains steppers (_BlockStepper/_IfStepper/'
                                           '_WhileStepper/_FunctionStepper/_ReturnStepper)', 'plumpy.mixins.ContextMixin',
